@@ -611,6 +611,55 @@ pub fn record(out_path: &str, client_bin: &str, seed: u64, tier: &str) {
             }
         }
     }
+    // (2c) C01: a top-level field given TWICE - a forged copy (another midpoint, another signature, another index) right in
+    //      front of or behind the genuine one. Such a message does not decode (tags must strictly increase); a client that
+    //      read one copy for the checks and the other for the time would print the forger's time as verified.
+    for v in [Proto::Google, Proto::Ietf] {
+        for keyopt in ["hex", "none"] {
+            for (which, forged_first) in [(rc::SREP, true), (rc::SREP, false), (rc::SIG, true), (rc::CERT, false), (rc::INDX, true), (rc::PATH, false)] {
+                let midp = now_midp(v);
+                let mut served = vec![];
+                let mut sub = Rng::new(rng.next_u64());
+                let run = run_client(client_bin, v, key_arg(&keys, keyopt), 1, &[], &sock, &mut |_, rq| {
+                    let honest = assemble(&honest_parts(v, rq, &keys, 1, 4, midp, &mut sub));
+                    let body: &[u8] = if v == Proto::Ietf { &honest[12..] } else { &honest[..] };
+                    let mut d = honest.clone();
+                    if let Some(fields) = rc::ref_decode(body) {
+                        let mut out: Vec<(u64, Vec<u8>)> = vec![];
+                        for (t, val) in fields {
+                            if t == which {
+                                let mut fake = val.clone();
+                                if which == rc::SREP { fake = enc_srep(v, midp / 2, &sub.bytes(v.width())); } else if !fake.is_empty() { let k = fake.len() / 2; fake[k] ^= 0x40; }
+                                if forged_first { out.push((t, fake)); out.push((t, val)); } else { out.push((t, val)); out.push((t, fake)); }
+                            } else { out.push((t, val)); }
+                        }
+                        let enc = rc::ref_encode(&out);
+                        d = if v == Proto::Ietf { rc::ref_frame(&enc) } else { enc };
+                    }
+                    let mut f = facts(v, &d, rq, &pinned); f["honest"] = json!(false); served.push(f);
+                    Some(d)
+                });
+                emit_run(&mut out, "dup-field-forgery", v, keyopt, &run, &served, &[expected_print(v, midp)], json!({"field": which, "forged_first": forged_first}));
+                runs += 1;
+            }
+        }
+    }
+    // (2d) C01: LONG multi-request runs (-n 70 / -n 135: more requests than a block of pre-drawn nonces of 4 096 bytes holds):
+    //      every request carries its own nonce (the nonce event at the end counts duplicates among all observed)
+    for (v, nreq) in [(Proto::Google, 70usize), (Proto::Ietf, 135)] {
+        let midp = now_midp(v);
+        let mut served = vec![];
+        let mut sub = Rng::new(rng.next_u64());
+        let run = run_client(client_bin, v, key_arg(&keys, "hex"), nreq, &[], &sock, &mut |j, rq| {
+            let d = assemble(&honest_parts(v, rq, &keys, j % 3, 3, midp, &mut sub));
+            let mut f = facts(v, &d, rq, &pinned); f["honest"] = json!(true); served.push(f);
+            Some(d)
+        });
+        for rq in &run.requests { if let Some(nn) = proto::request_nonce(rq) { nonces.push(nn); } }
+        let exp: Vec<(u64, u32)> = (0..nreq).map(|_| expected_print(v, midp)).collect();
+        emit_run(&mut out, "long-run", v, "hex", &run, &served, &exp, json!({"nreq": nreq}));
+        runs += 1;
+    }
     // (3) C01: replays within one multi-request run, replays across runs, truncations, random mutations, full re-signing
     let n_misc = if thorough { 900 } else { 160 };
     for k in 0..n_misc {
